@@ -14,7 +14,7 @@ from .c01 import decl_errors
 ID = "C04"
 RULE = ("(type spec, value, options, entry) with 70% hostile values (any Python value: non-finite numbers in every "
         "spelling, huge ints, undecodable bytes, iterators, objects, classes, nested containers) and 30% type-directed; "
-        "non-trivial = the call was rejected, or accepted after a conversion; distinct = hash of the whole case")
+        "non-trivial = the call was rejected, or accepted after a conversion; distinct = hash of the whole case Besides the random campaign: exhaustive grids of every builtin target x extreme scalars and of awkward-but-legal declarations x inputs aimed at them (every grid case counts as non-trivial when it is rejected or converted).")
 ASSUMPTIONS = [
     "termination verdict = more than 2e5 + 2e3*size(input) line events inside utype/ for one parse (ordinary parses use 1e2..1e4); "
     "a case over budget is re-run with 50x budget: completing there is 'slow' (evidence only), not a hang; a case stopped by the wall-clock backstop "
